@@ -525,6 +525,7 @@ type cost struct {
 	decAlloc, encAlloc    int64
 	decMallocs, encMalloc int64
 	retained              int64
+	outLen                int // length of the re-encoding
 }
 
 var sink any
@@ -570,6 +571,7 @@ func measure(fam string, b []byte) cost {
 	runtime.ReadMemStats(&m2)
 	c.encAlloc = int64(m2.TotalAlloc - m1.TotalAlloc)
 	c.encMalloc = int64(m2.Mallocs - m1.Mallocs)
+	c.outLen = len(out)
 	sink = out
 	if fam == "v4" {
 		c.retained = mon.DeepSize(v4) + mon.DeepSize(sink)
@@ -598,6 +600,12 @@ func judge(r *mon.Rec, rp replay, c cost) bool {
 	r.Max("retained_percent_of_bound", c.retained*100/boundRet)
 	if total > boundAlloc {
 		r.Violate("C09:alloc-bound:"+rp.Family, fmt.Sprintf("family %s n=%d depth=%d: decode allocates %d B + re-encode %d B = %d B, bound %d*n + %d/100*n*d + %d = %d B", rp.Family, c.n, c.depth, c.decAlloc, c.encAlloc, total, ka, kd, Ca, boundAlloc), rp)
+		return false
+	}
+	// the re-encoding of what was decoded is of the size of what was received (a canonical form may add a root octet here,
+	// padding there; it does not multiply)
+	if c.accepted && int64(c.outLen) > 4*n+1024 {
+		r.Violate("C09:reencoding-size:"+rp.Family, fmt.Sprintf("family %s n=%d: the decoded value re-encodes to %d octets, more than 4*n+1024", rp.Family, c.n, c.outLen), rp)
 		return false
 	}
 	if c.retained > boundRet {
